@@ -89,7 +89,11 @@ impl SubWordValue {
     pub fn get_shift(value: &RuntimeBoxedVal) -> (&RuntimeBoxedVal, usize) {
         match &value.data() {
             RSVD::RightShift { value, shift } => match shift.constant_fold().data() {
-                RSVD::KnownData { value: shift } => (value, shift.into()),
+                // A shift amount that does not fit in a `usize` must not be truncated into a small one
+                RSVD::KnownData { value: shift } => (
+                    value,
+                    usize::try_from(shift.value_le()).unwrap_or(usize::MAX),
+                ),
                 _ => (value, 0),
             },
             RSVD::Divide { dividend, divisor } => match divisor.data() {
@@ -160,6 +164,14 @@ impl Lift for SubWordValue {
 
             // Next we have to pull the shift amount (if any) out of the value
             let (value, shift) = SubWordValue::get_shift(value);
+
+            // A sub-word that does not lie entirely within the 256-bit word describes bits that do
+            // not exist, so we cannot lift it
+            match offset.checked_add(shift).and_then(|start| start.checked_add(length)) {
+                Some(end) if end <= WORD_SIZE_BITS => (),
+                _ => return None,
+            }
+
             let value = value.clone().transform_data(insert_sub_words);
 
             let value = match value.data() {
